@@ -260,7 +260,7 @@ def handle (toks : List String) : Option String :=
       match t.splitOn ":" with
       | [k, v] => do some (← parseHex k, ← parseHex v)
       | _ => none)
-    let decomp := fun (_ : Nat) (stored : Bytes) (_ : Nat) => (tab.find? (·.1 = stored)).map (·.2)
+    let decomp := limitedDecomp fun (_ : Nat) (stored : Bytes) => (tab.find? (·.1 = stored)).map (·.2)
     let r := Clone.run Blake2b.hash decomp [] (honestReadAt archive) (honestReadChunks archive) opts (← parseHex prior) seeds
     let res := match r.result with
       | .ok => "ok"
